@@ -1,7 +1,7 @@
 CONSTANTS
   Cfgs <- C19_PrfCfgs
   Stores <- C19_Stores
-  CerSets <- C19_FailPairs
+  CerSets <- C19_FailPairsAll
   PlanOk <- C19_PlanOk
   Lock = "mutex"
   Known = {"C19.DistinctCounters.StaleUpdate", "C19.LargestIsStored.StaleUpdate"}
